@@ -9,7 +9,7 @@
 //                                 Newton / CG / PGS, with and without islands, dense and sparse, and prints the problem
 //                                 data (dense M and J, D, R, frictionloss, aref, types, contacts, qacc_smooth, warm
 //                                 start) and every solver's answer + reported statistics.  Doubles as C99 hex floats.
-//   c10_solvers apex z vx vz    : the sphere-on-plane scene of finding C10-F1 (see run_apex)
+//   c10_solvers apex z vx vz [density condim] : the sphere-on-plane scenes of findings C10-F1 / C10-F2 (see run_apex)
 //   P seed step cone nv nefc ne nf ncon nisland meaninertia tolerance impratio
 //     M[nv*nv] J[nefc*nv] D[nefc] R[nefc] floss[nefc] aref[nefc] type[nefc] id[nefc]
 //     qacc_smooth[nv] qfrc_smooth[nv] qacc_warmstart[nv] {dim mu fr[5] adr}[ncon]
@@ -160,10 +160,10 @@ static int run_solve(int s0, int s1) {
   return 0;
 }
 
-// smallest known input on which PGS with elliptic cones stops at a non-optimal point: a sphere of radius 0.1 whose centre is
-// at height z above a plane, velocity (vx, 0, vz), elliptic cone, condim 3, warm start disabled.
+// smallest known inputs on which PGS with elliptic cones stops at a non-optimal point: a sphere of radius 0.1 (given density and
+// condim, default 1000 and 3) whose centre is at height z above a plane, velocity (vx, 0, vz), elliptic cone, warm start disabled.
 //   A solver niter qacc[6] efc_force[nefc]
-static int run_apex(double z, double vx, double vz) {
+static int run_apex(double z, double vx, double vz, double density, int condim) {
   mjg_install_handlers();
   mjSpec* s = mj_makeSpec();
   s->option.cone = mjCONE_ELLIPTIC;
@@ -171,7 +171,7 @@ static int run_apex(double z, double vx, double vz) {
   mjsGeom* g = mjs_addGeom(world, NULL); g->type = mjGEOM_PLANE; g->size[0] = g->size[1] = 5; g->size[2] = 0.1;
   mjsBody* b = mjs_addBody(world, NULL); b->pos[2] = z;
   mjsJoint* j = mjs_addJoint(b, NULL); j->type = mjJNT_FREE;
-  mjsGeom* sp = mjs_addGeom(b, NULL); sp->type = mjGEOM_SPHERE; sp->size[0] = 0.1; sp->condim = 3;
+  mjsGeom* sp = mjs_addGeom(b, NULL); sp->type = mjGEOM_SPHERE; sp->size[0] = 0.1; sp->condim = condim; sp->density = density;
   mjModel* m = mj_compile(s, NULL);
   if (!m) { fprintf(stderr, "apex: compile failed: %s\n", mjs_getError(s)); return 3; }
   m->opt.disableflags |= mjDSBL_WARMSTART;
@@ -194,7 +194,8 @@ int main(int argc, char** argv) {
   if (argc >= 2 && !strcmp(argv[1], "proj")) return run_proj();
   if (argc >= 5 && !strcmp(argv[1], "solve")) mj_nesterov_momentum = atoi(argv[4]);   // debugging aid: PGS momentum on/off
   if (argc >= 4 && !strcmp(argv[1], "solve")) return run_solve(atoi(argv[2]), atoi(argv[3]));
-  if (argc >= 5 && !strcmp(argv[1], "apex")) return run_apex(atof(argv[2]), atof(argv[3]), atof(argv[4]));
+  if (argc >= 5 && !strcmp(argv[1], "apex"))
+    return run_apex(atof(argv[2]), atof(argv[3]), atof(argv[4]), argc >= 6 ? atof(argv[5]) : 1000.0, argc >= 7 ? atoi(argv[6]) : 3);
   fprintf(stderr, "usage: c10_solvers proj | solve s0 s1 | apex z vx vz\n");
   return 2;
 }
